@@ -6,9 +6,10 @@ CONSTANTS
  HashSession = TRUE
  HashId = TRUE
  DedupMode = "peer+id"
+ AllowRelay = TRUE
  MCCfgs <- Cfg4
  Bodies = {x, y}
- MaxFSig = 3
+ MaxFSig = 2
  MaxB = 1
  Lists = "best"
 SYMMETRY Sym
